@@ -751,6 +751,28 @@ class HeapOps:
 
     def exec_with(self, st, env):
         exts = self.ctx.contract.externals
+        if len(st.items) == 1 and isinstance(st.items[0].context_expr, ast.Call):
+            ce = st.items[0].context_expr
+            fv = None
+            try:
+                fv = self.ev.ev(ce.func, env)
+            except OutOfSubset:
+                fv = None
+            if isinstance(fv, VPy) and isinstance(fv.obj, tuple) and fv.obj[0] == "func" and \
+                    any(ast.unparse(d).endswith("contextmanager") for d in fv.obj[2].decorator_list) and ast.unparse(ce.func) not in exts:
+                # generator-based context manager of the repo: inline it, the with-body runs at its `yield`
+                mod, fn = fv.obj[1], fv.obj[2]
+                args = [self.ev.ev(a, env) for a in ce.args]
+                kwargs = {k.arg: self.ev.ev(k.value, env) for k in ce.keywords}
+                cenv = self.ev.E.Env(module=mod)
+                self.ev.bind_params(fn, args, kwargs, cenv, st)
+                prev = getattr(self.ev, "_yield_hook", None)
+                self.ev._yield_hook = lambda: self.ev.exec_block(st.body, env)
+                try:
+                    self.ev.exec_block(strip_docstring(fn.body), cenv)
+                finally:
+                    self.ev._yield_hook = prev
+                return
         for it in st.items:
             ce = it.context_expr
             key = ast.unparse(ce.func) if isinstance(ce, ast.Call) else None
